@@ -30,7 +30,9 @@ use std::time::{Duration, Instant};
 
 const DEFAULT_LAMBDA: &str = "/repo/rlib/lambda";
 const BUILD_TIMEOUT_S: u64 = 900;
-const RUN_TIMEOUT_S: u64 = 120;
+const RUN_TIMEOUT_S: u64 = 300;
+/// one shape runs 6 inputs of at most a few hundred calls each: milliseconds
+const SHAPE_TIMEOUT_S: u64 = 20;
 const MAX_REBUILDS: usize = 3;
 const MAX_CRASH_RESTARTS: usize = 25;
 
@@ -102,6 +104,96 @@ fn run_cmd(mut cmd: Command, timeout: Duration) -> Finished {
     }
 }
 
+/// Runs the generated binary. `stall`: longest silence on stdout that is tolerated (the binary
+/// prints a line before and after every shape, so a stall is attributable to the shape announced
+/// last); `total`: overall limit (not attributable to any shape).
+fn run_streaming(mut cmd: Command, stall: Duration, total: Duration) -> (Finished, bool) {
+    use std::io::BufRead;
+    use std::sync::atomic::{AtomicU64, Ordering};
+    use std::sync::{Arc, Mutex};
+    let t0 = Instant::now();
+    cmd.stdin(Stdio::null()).stdout(Stdio::piped()).stderr(Stdio::piped());
+    let mut child = match cmd.spawn() {
+        Ok(c) => c,
+        Err(e) => {
+            return (
+                Finished {
+                    code: None,
+                    signal_or_abnormal: false,
+                    timed_out: false,
+                    spawn_error: Some(e.to_string()),
+                    stdout: String::new(),
+                    stderr: String::new(),
+                    wall_s: 0.0,
+                },
+                false,
+            )
+        }
+    };
+    let so = child.stdout.take().unwrap();
+    let mut se = child.stderr.take().unwrap();
+    let last_ms = Arc::new(AtomicU64::new(0));
+    let lines = Arc::new(Mutex::new(String::new()));
+    let (l2, a2) = (lines.clone(), last_ms.clone());
+    let h1 = std::thread::spawn(move || {
+        let rd = std::io::BufReader::new(so);
+        for line in rd.split(b'\n') {
+            match line {
+                Ok(b) => {
+                    let mut g = l2.lock().unwrap();
+                    g.push_str(&String::from_utf8_lossy(&b));
+                    g.push('\n');
+                    a2.store(t0.elapsed().as_millis() as u64, Ordering::Relaxed);
+                }
+                Err(_) => break,
+            }
+        }
+    });
+    let h2 = std::thread::spawn(move || {
+        let mut b = Vec::new();
+        let _ = se.read_to_end(&mut b);
+        String::from_utf8_lossy(&b).to_string()
+    });
+    let mut timed_out = false;
+    let mut stalled = false;
+    let status = loop {
+        match child.try_wait() {
+            Ok(Some(s)) => break Some(s),
+            Ok(None) => {
+                let now = t0.elapsed();
+                let quiet = now.as_millis() as u64 - last_ms.load(Ordering::Relaxed).min(now.as_millis() as u64);
+                if now > total {
+                    timed_out = true;
+                } else if quiet > stall.as_millis() as u64 {
+                    stalled = true;
+                }
+                if timed_out || stalled {
+                    let _ = child.kill();
+                    break child.wait().ok();
+                }
+                std::thread::sleep(Duration::from_millis(10));
+            }
+            Err(_) => break None,
+        }
+    };
+    let _ = h1.join();
+    let stderr = h2.join().unwrap_or_default();
+    let stdout = lines.lock().unwrap().clone();
+    let code = status.and_then(|s| s.code());
+    (
+        Finished {
+            code,
+            signal_or_abnormal: code.is_none(),
+            timed_out,
+            spawn_error: None,
+            stdout,
+            stderr,
+            wall_s: t0.elapsed().as_secs_f64(),
+        },
+        stalled,
+    )
+}
+
 fn cargo_build(dir: &Path) -> Finished {
     let mut cmd = Command::new("cargo");
     cmd.arg("build")
@@ -149,8 +241,47 @@ fn replay_args(o: &Opts, id: &str) -> Vec<String> {
     v
 }
 
+struct Pending {
+    kind: &'static str,
+    shape: Shape,
+    detail: Json,
+}
+
+/// `Report` keeps the first 40 distinct signatures. One broken macro arm breaks hundreds of shapes,
+/// so the violations are handed over simplest shape first and round-robin over the kinds
+/// (compile / behaviour / crash): the kept ones are then the smallest witnesses of every kind.
+fn flush(mut pend: Vec<Pending>, o: &Opts, rep: &mut Report) {
+    let complexity = |s: &Shape| (s.caps.len() + s.nargs, s.variant, s.tc, !s.ret, s.id());
+    pend.sort_by(|a, b| complexity(&a.shape).cmp(&complexity(&b.shape)));
+    let mut queues: Vec<std::collections::VecDeque<Pending>> = Vec::new();
+    for kind in ["compile", "behaviour", "crash"] {
+        let (q, rest): (Vec<Pending>, Vec<Pending>) = pend.into_iter().partition(|p| p.kind == kind);
+        pend = rest;
+        queues.push(q.into());
+    }
+    loop {
+        let mut any = false;
+        for q in queues.iter_mut() {
+            if let Some(p) = q.pop_front() {
+                any = true;
+                let id = p.shape.id();
+                rep.violation(format!("{}:{}", p.kind, id), p.detail, replay_args(o, &id));
+            }
+        }
+        if !any {
+            break;
+        }
+    }
+}
+
 /// Emit, build (dropping shapes that fail to compile, up to MAX_REBUILDS rebuilds), execute, judge.
 fn pipeline(dir: &Path, all: &[Shape], o: &Opts, rep: &mut Report) {
+    let mut pend = Vec::new();
+    pipeline_inner(dir, all, o, rep, &mut pend);
+    flush(pend, o, rep);
+}
+
+fn pipeline_inner(dir: &Path, all: &[Shape], o: &Opts, rep: &mut Report, pend: &mut Vec<Pending>) {
     let by_id: BTreeMap<String, Shape> = all.iter().map(|s| (s.id(), s.clone())).collect();
     rep.count("shapes_generated", all.len() as u64);
     let mut active: Vec<Shape> = all.to_vec();
@@ -230,17 +361,17 @@ fn pipeline(dir: &Path, all: &[Shape], o: &Opts, rep: &mut Report) {
             }
             compile_failed.insert(id.clone());
             let sh = &by_id[id];
-            rep.violation(
-                format!("compile:{}", id),
-                Json::obj()
+            pend.push(Pending {
+                kind: "compile",
+                shape: sh.clone(),
+                detail: Json::obj()
                     .set("shape", id.as_str())
                     .set("description", sh.describe())
                     .set("error", d.msg.as_str())
                     .set("diagnostic", clip(&d.text, 4000))
                     .set("lambda_path", o.lambda_path.as_str())
                     .set("source", sh.source("shape_fn")),
-                replay_args(o, id),
-            );
+            });
         }
         let drop: BTreeSet<&String> = in_macro.keys().chain(in_twin.keys()).collect();
         active.retain(|s| !drop.contains(&s.id()));
@@ -275,7 +406,7 @@ fn pipeline(dir: &Path, all: &[Shape], o: &Opts, rep: &mut Report) {
         if o.verbose {
             cmd.arg("--verbose");
         }
-        let r = run_cmd(cmd, Duration::from_secs(RUN_TIMEOUT_S));
+        let (r, stalled) = run_streaming(cmd, Duration::from_secs(SHAPE_TIMEOUT_S), Duration::from_secs(RUN_TIMEOUT_S));
         if let Some(e) = &r.spawn_error {
             rep.inconclusive(format!("cannot start the generated binary {}: {}", bin.display(), e));
             return;
@@ -313,12 +444,20 @@ fn pipeline(dir: &Path, all: &[Shape], o: &Opts, rep: &mut Report) {
                 }
             }
         }
-        if summary && (r.code == Some(0) || r.code == Some(1)) && !r.timed_out {
+        if summary && (r.code == Some(0) || r.code == Some(1)) && !r.timed_out && !stalled {
             break;
         }
         // crash or timeout
-        let how = if r.timed_out {
-            format!("no result within {} s", RUN_TIMEOUT_S)
+        if r.timed_out {
+            rep.inconclusive(format!(
+                "the generated binary did not finish within {} s in total (no single shape stalled); {} shapes had a verdict",
+                RUN_TIMEOUT_S,
+                done.len()
+            ));
+            break;
+        }
+        let how = if stalled {
+            format!("no output for {} s while this shape was running", SHAPE_TIMEOUT_S)
         } else if r.signal_or_abnormal {
             "killed by a signal (stack overflow / abort)".to_string()
         } else {
@@ -327,17 +466,17 @@ fn pipeline(dir: &Path, all: &[Shape], o: &Opts, rep: &mut Report) {
         match last_begin {
             Some((idx, id)) if by_id.contains_key(&id) => {
                 let sh = &by_id[&id];
-                rep.violation(
-                    format!("crash:{}", id),
-                    Json::obj()
+                pend.push(Pending {
+                    kind: "crash",
+                    shape: sh.clone(),
+                    detail: Json::obj()
                         .set("shape", id.as_str())
                         .set("description", sh.describe())
                         .set("what", format!("the generated binary died while running this shape: {}", how))
                         .set("stderr_tail", clip(&r.stderr, 2000))
                         .set("lambda_path", o.lambda_path.as_str())
                         .set("source", sh.source("shape_fn")),
-                    replay_args(o, &id),
-                );
+                });
                 done.insert(id, Err(format!("crash: {}", how)));
                 start = idx + 1;
                 restarts += 1;
@@ -386,17 +525,17 @@ fn pipeline(dir: &Path, all: &[Shape], o: &Opts, rep: &mut Report) {
                 continue; // already reported
             }
             let kind = if reason.contains(" panic: ") { "crash" } else { "behaviour" };
-            rep.violation(
-                format!("{}:{}", kind, id),
-                Json::obj()
+            pend.push(Pending {
+                kind,
+                shape: sh.clone(),
+                detail: Json::obj()
                     .set("shape", id.as_str())
                     .set("description", sh.describe())
                     .set("difference", reason.as_str())
                     .set("seed", o.seed)
                     .set("lambda_path", o.lambda_path.as_str())
                     .set("source", sh.source("shape_fn")),
-                replay_args(o, &id),
-            );
+            });
         }
     }
     rep.count("shapes_executed", executed);
@@ -475,7 +614,7 @@ fn main() {
         rep.extra("exhaustive", grid_complete);
         rep.extra(
             "exhaustive_note",
-            "the grid of macro shapes is enumerated completely: 31 capture patterns (every sequence of 0..=4 captures over {&T, &mut T}) x 1..=4 arguments x {return type, none} x {rec!(a, b), rec!(a, b,)} = 496 shapes, for each body variant (types: 480, needs a capture); bodies and the 6 inputs per shape are samples, not exhaustive",
+            "`exhaustive` is true iff all 496 grid cells were compiled and executed in this run. The generator enumerates the grid of macro shapes completely: 31 capture patterns (every sequence of 0..=4 captures over {&T, &mut T}) x 1..=4 arguments x {return type, none} x {rec!(a, b), rec!(a, b,)} = 496 shapes, for each body variant (types: 480, needs a capture); bodies and the 6 inputs per shape are samples, not exhaustive",
         );
         rep.extra("variants", variants.iter().map(|v| v.name().to_string()).collect::<Vec<String>>());
         rep.extra("lambda_path", o.lambda_path.as_str());
